@@ -203,10 +203,10 @@ def run(ctx):
             mb = re.search(r"let %s = ⟨darling_core::options::shape::DataShape⟩ ; let %s = ⟨darling_core::options::shape::DataShape⟩ ;" % (V, V), body)
             which = dict(zip(mb.groups(), exprs)) if mb and len(exprs) == 2 else {}
             ctx.ob("C18.H.check-sets", f.key, "the two shape sets are bound to locals", sorted(which.values()) == ["self.enum_values", "self.struct_values"], "bindings %s" % which)
-            me = re.search(r"Data :: Enum \( ref %s \) => \{ if %s \. is_empty \( \) \{ return :: darling :: export :: Err \( :: darling :: Error :: unsupported_shape_with_expected \( \"enum\"" % (V, V), body)
+            me = re.search(r"Data :: Enum \( ref %s \) => \{ if %s \. is_empty \( \) \{ (?:return )?:: darling :: export :: Err \( :: darling :: Error :: unsupported_shape_with_expected \( \"enum\"" % (V, V), body)
             ok = bool(me) and which.get(me.group(2)) == "self.enum_values"
             ctx.ob("C18.H.enum-needs-enum-words", f.key, "enum with no enum_* word → error", ok, body[:200])
-            ms = re.search(r"Data :: Struct \( ref %s \) => \{ if %s \. is_empty \( \) \{ return :: darling :: export :: Err \( :: darling :: Error :: unsupported_shape_with_expected \( \"struct\"" % (V, V), body)
+            ms = re.search(r"Data :: Struct \( ref %s \) => \{ if %s \. is_empty \( \) \{ (?:return )?:: darling :: export :: Err \( :: darling :: Error :: unsupported_shape_with_expected \( \"struct\"" % (V, V), body)
             ok = bool(ms) and which.get(ms.group(2)) == "self.struct_values"
             ctx.ob("C18.H.struct-needs-struct-words", f.key, "struct with no struct_* word → error", ok, "struct arm")
             ok = False
